@@ -99,6 +99,16 @@ def score(metric, R, P, shape):
     raise ValueError(metric)
 
 
+def thr_frac(t):
+    """the rational a float threshold stands for (the solver picks e.g. exactly 1/5; float(1/5) compares equal to the library's
+    correctly rounded score 1/5, so the oracle must compare against 1/5 and not against the binary expansion of 0.2)"""
+    if isinstance(t, Fraction):
+        return t
+    f = Fraction(t)
+    g = f.limit_denominator(1 << 20)
+    return g if abs(float(g) - float(t)) <= 4e-16 * max(1.0, abs(float(t))) else f
+
+
 def beats(metric, s, thr):
     return s <= thr if metric in ("ASSD", "RVD") else s >= thr
 
@@ -126,7 +136,7 @@ def reference_pipeline(pred, ref, cfg):
     if it == "MATCHED_INSTANCE":
         pairs = [(r, r) for r in sorted(Ri) if r in Pi]
     else:
-        mm, thr = cfg["matching_metric"], Fraction(cfg["matching_threshold"])
+        mm, thr = cfg["matching_metric"], thr_frac(cfg["matching_threshold"])
         cand = [(score(mm, Ri[r], Pi[p], shape), r, p) for r in Ri for p in Pi if Ri[r] & Pi[p]]
         # uniqueness clause: two competing (sharing an instance) eligible candidates with equal score
         for a, b in itertools.combinations(cand, 2):
@@ -142,7 +152,7 @@ def reference_pipeline(pred, ref, cfg):
             pairs.append((r, p))
     dm = cfg.get("decision_metric")
     if dm is not None:
-        dthr = Fraction(cfg["decision_threshold"]) if dm != "ASSD" else cfg["decision_threshold"]
+        dthr = thr_frac(cfg["decision_threshold"]) if dm != "ASSD" else cfg["decision_threshold"]
         pairs = [(r, p) for r, p in pairs if beats(dm, score(dm, Ri[r], Pi[p], shape), dthr)]
     tp = len(pairs)
     lists = {m: sorted(score(m, Ri[r], Pi[p], shape) for r, p in pairs) for m in cfg.get("metrics", ["DSC", "IOU", "RVD"])}
